@@ -684,12 +684,16 @@ reg(P("C07", "format", "c07",
            "string or pointer repeated across arguments, header values and the method name, variadic tails, fewer and "
            "more arguments than parameters, upper / mixed case and non-ASCII names, 0 / 1 / several results incl. shared "
            "ones and fewer than declared, error / panic error / non-ASCII error) x Simple on either side x 4 sets of "
-           "LongType / RealType / MapType / StructType / ListType / Debug options per side; every case is non-trivial",
-      assumptions=_FMT_ASSUME + ["the JSON-RPC codec is not covered by this check"],
+           "LongType / RealType / MapType / StructType / ListType / Debug options per side; 30 exchanges through the "
+           "JSON-RPC 2.0 codec pair (ids going up; strings with escapes, non-ASCII names, variadic tails, maps, lists, "
+           "structs, several results, errors, panic errors, method not found, invalid params, too many params); "
+           "every case is non-trivial",
+      assumptions=_FMT_ASSUME + ["JSON messages are parsed by the harness with encoding/json (integers kept apart from other numbers); "
+                                 "for struct values what is on the wire is not compared with the value passed (JSON keys are Go's field names)"],
       sig_fn=lambda reset, event: {"label": reset.get("label"), "csimple": reset.get("csimple"), "ssimple": reset.get("ssimple"),
                                    "types": (reset.get("opts") or {}).get("types")},
       mutate=_c07_mutate, design_ref="DESIGN.md §6 C07",
-      technique="TLC recognises the real request and response bytes segment by segment (RpcCodec.tla: reference scopes, simple header) and compares what each codec decoded with what the other side passed"))
+      technique="TLC recognises the real request and response bytes segment by segment (RpcCodec.tla: reference scopes, simple header) and compares what each codec decoded with what the other side passed; JSON-RPC exchanges judged by RpcCodec!JsonWhy"))
 
 
 def _c08_mutate(rec):
